@@ -37,6 +37,8 @@ func (d *PathDecoder) attrValueCompletionAtPos(ctx context.Context, attr *hclsyn
 		expr := d.newExpression(attr.Expr, schema.Constraint)
 		for _, candidate := range expr.CompletionAtPos(ctx, pos) {
 			if uint(count) >= d.maxCandidates {
+				// some candidates were left out
+				candidates.IsComplete = false
 				return candidates, nil
 			}
 
